@@ -81,10 +81,45 @@ def scalarise(trees: List[Tuple[str, ast.Module]], known: Set[str]) -> List[str]
         vm.update(meths[mod])
         if not visible:
             continue
+        _fold_module_constants(tree, visible)
         _NT_METHODS.clear()
         _NT_METHODS.update(vm)
         done.update(_scalarise_with(trees, [(mod, tree)], visible))
     return sorted(done)
+
+
+def _fold_module_constants(tree: ast.Module, nts: Dict[str, List[str]]) -> None:
+    """`_GENERAL = _Syntax(sign_general, extract_general, verify_general)` at module level, bound once, the arguments plain names / constants:
+    `_GENERAL.extract` anywhere in the module is `extract_general` (a record of functions used as a strategy object)."""
+    import copy
+    stores: Dict[str, int] = {}
+    for x in ast.walk(tree):
+        if isinstance(x, ast.Name) and isinstance(x.ctx, (ast.Store, ast.Del)):
+            stores[x.id] = stores.get(x.id, 0) + 1
+    consts: Dict[str, Dict[str, ast.expr]] = {}
+    for st in tree.body:
+        if isinstance(st, ast.Assign) and len(st.targets) == 1 and isinstance(st.targets[0], ast.Name) and isinstance(st.value, ast.Call) \
+                and isinstance(st.value.func, ast.Name) and st.value.func.id in nts and stores.get(st.targets[0].id) == 1:
+            t_ = _ctor_tuple(st.value, nts[st.value.func.id])
+            if isinstance(t_, ast.Tuple) and all(isinstance(e, (ast.Name, ast.Constant)) for e in t_.elts) \
+                    and all(not isinstance(e, ast.Name) or stores.get(e.id, 0) <= 1 for e in t_.elts):
+                consts[st.targets[0].id] = dict(zip(nts[st.value.func.id], t_.elts))
+    if not consts:
+        return
+
+    class F(ast.NodeTransformer):
+        def visit_Attribute(self, n: ast.Attribute):
+            self.generic_visit(n)
+            if isinstance(n.value, ast.Name) and isinstance(n.ctx, ast.Load) and n.value.id in consts and n.attr in consts[n.value.id]:
+                return ast.copy_location(copy.deepcopy(consts[n.value.id][n.attr]), n)
+            return n
+    for fn in ast.walk(tree):
+        if isinstance(fn, (ast.FunctionDef, ast.AsyncFunctionDef)):
+            params = {a.arg for a in ast.walk(fn.args) if isinstance(a, ast.arg)}
+            local = {x.id for x in ast.walk(fn) if isinstance(x, ast.Name) and isinstance(x.ctx, (ast.Store, ast.Del))}
+            if (params | local) & set(consts):
+                continue
+            F().visit(fn)
 
 
 def _scalarise_with(all_trees: List[Tuple[str, ast.Module]], trees: List[Tuple[str, ast.Module]], nts: Dict[str, List[str]]) -> List[str]:
